@@ -14,6 +14,8 @@ def _sources():
         dict(name="outgoing", mcmodule="OutgoingMC", pkg="outgoing", consts=spec_outgoing.MIX_Q, overrides=None,
              harness=spec_outgoing.harness("eth", spec_outgoing.MIX_Q)),
     ]
+    src.append(dict(name="multi", mcmodule="MultiMC", pkg="multi", consts=dict(N=12, Ks=[2, 3], MaxCalls=2, MaxBlocks=2, MaxSends=6), overrides=None,
+                    harness=dict(chain="eth", N=12), walks_factor=2))
     for extra in EXTRA_SOURCES:
         try:
             src.append(extra())
@@ -73,7 +75,7 @@ def run(work, args):
             procs = []
             for i, extra in enumerate(RUNS):
                 tf = work.path("walks-%s-%d.ndjson" % (s["name"], i))
-                env = dict(VERIF_EDGES=compact, VERIF_CONST=json.dumps(s["harness"]), VERIF_TRACES=tf, VERIF_WALKS=walks,
+                env = dict(VERIF_EDGES=compact, VERIF_CONST=json.dumps(s["harness"]), VERIF_TRACES=tf, VERIF_WALKS=walks * s.get("walks_factor", 1),
                            VERIF_WALKLEN=walklen, VERIF_DET="1")
                 env.update(extra)
                 held = vlib.acquire_slots(1)
